@@ -320,6 +320,21 @@ def run(rep):
             ck.check(wl + '_partial', b2, A, (rng.choice(names),))
         if i % 3000 == 0:
             common.fresh_env()
+    # powers with negative exponents over Int and Real bases (exact
+    # rationals are expected)
+    if rep.shard == 0 and (not rep.only or rep.only == 'pow'):
+        common.fresh_env()
+        i0, r0 = B.Sym('i0', B.INT), B.Sym('r0', B.REAL)
+        for e in (-1, -2, -3, 0, 2):
+            for base, et, vals in ((i0, B.Int(e), (3, -2, 7, 1)),
+                                   (r0, B.Real(e), (Fraction(3),
+                                                    Fraction(-2, 3),
+                                                    Fraction(7, 2)))):
+                f_ = ('pow', None, (base, et))
+                for v in vals:
+                    ck.check('pow', ('le', None, (f_, B.Real(1))),
+                             {base[1][0]: v})
+                    ck.check('pow', f_, {base[1][0]: v})
     if not rep.only or rep.only == 'after_failure':
         after_failure_cases(ck, rep, rng, 40 if rep.tier == 'quick' else 3000)
     # --- random QF, UF-free formulas of every result type
